@@ -99,6 +99,9 @@ impl Prop for C03 {
     fn run(&self, dom: usize, idx: u64, cx: &mut Cx) {
         run_returned("C03", &self.sets[dom], idx, cx, &gen);
     }
+    fn abort_is_violation(&self) -> bool {
+        true
+    }
     fn rule(&self) -> String {
         "sweep: every title of every domain x every store context (|store| <= limit: alone / behind an identical better-rated record / with two distractors) x every word of the public tokenisation x every prefix length ending in a letter or digit, typed as the normalised prefix and (when different) as the prefix of the original spelling. Non-trivial = proper prefix or a word whose stem is shorter than the word, counted once per (title, query) in the first context.".into()
     }
